@@ -111,7 +111,7 @@ def needs_expansion(template, contracts):
             t = l.strip()
             if t.startswith("//@expanded") or t.startswith("//@fn @expanded"):
                 return True
-            if t.startswith("//@include "):
+            if t.startswith("//@include ") or t.startswith("//@needs "):
                 todo.append(os.path.join(contracts, t.split()[1]))
     return False
 
